@@ -42,6 +42,16 @@ Get(dots, x) ==
   ELSE IF x > dots[n].x THEN dots[n].y
   ELSE LET p == Piece(dots, x) IN Interp(dots[p].x, dots[p].y, dots[p + 1].x, dots[p + 1].y, x)
 
+(* ---- lists of two and three dots with the coordinates as plain numbers ---- *)
+\* Used where sequences are expensive: Apalache validating recorded results of the real code at the range
+\* extremes (checks/c31.py).  PieceVec!ScalarForms checks them against ValidDots/Get on every small list.
+Coord(c) == c >= 0 /\ LeMaxVal(c)
+Valid2(ax, ay, bx, by) == Coord(ax) /\ Coord(ay) /\ Coord(bx) /\ Coord(by) /\ ax < bx
+Get2(ax, ay, bx, by, x) == IF x < ax THEN ay ELSE IF x > bx THEN by ELSE Interp(ax, ay, bx, by, x)
+Valid3(ax, ay, bx, by, cx, cy) == Valid2(ax, ay, bx, by) /\ Coord(cx) /\ Coord(cy) /\ bx < cx
+Get3(ax, ay, bx, by, cx, cy, x) == IF x < ax THEN ay ELSE IF x > cx THEN cy
+                                  ELSE IF bx > x THEN Interp(ax, ay, bx, by, x) ELSE Interp(bx, by, cx, cy, x)
+
 (* ---- the clauses of C31 for one list and one argument ---- *)
 Max2(a, b) == IF a > b THEN a ELSE b
 Min2(a, b) == IF a > b THEN b ELSE a
